@@ -83,6 +83,13 @@ def pathological(rng: random.Random, n_long: int) -> List[Tuple[str, Any, str]]:
         out.append(("rg", ["'" + run], f"rg-unclosed-quote-{name}"))
         out.append(("rg", ["f(" + run], f"rg-unclosed-paren-{name}"))
         out.append(("rg", [run + " x"], f"rg-leading-{name}"))
+    # tokens run together (one deleted blank away from valid recipes): must be a recipe or a documented error
+    for t in ("{1 can}of spam", "{2}of the x", "{1 kg}OF x", "{ 3 big }Of  the y", "x = {1 can}of spam\nfry({2}of the x)",
+              "2g'x'", "1/2of x", "50%of x", "rest'of'x", "remaining{x}", "3 tsp{2}x", "x:=y", "a,b=c", "f(x,)", "f(,x)",
+              "{}", "spam {}", "fry({} eggs, x)", "'' x", '"" = y', "{1/02 kg} x", "1 1/02kg x", "{\\}", "x\rx = y\rx = z",
+              "foo = spam\rfoo = eggs", "a = 1 b\x0ca = 2 c", "a = 1 b\u2028a = 2 c"):
+        out.append(("rg", [t.encode().decode("unicode_escape") if "\\" in t else t], "rg-adjacent-" + t[:12]))
+        out.append(("md", "    " + t.replace("\n", "\n    ") + "\n", "md-adjacent-" + t[:12]))
     out.append(("rg", ["f(" * 30 + "x" + ")" * 30], "rg-depth-30"))
     out.append(("rg", ["(" * 30 + "x" + ")" * 29], "rg-depth-30-unbalanced"))
     out.append(("md", ("> " * 20) + "{" + "1" * 200, "md-nested-quote-brace"))
